@@ -1,4 +1,5 @@
 import Hub.Generated.Coin
+import Hub.SDK.MeterSpec
 import Hub.Generated.Bandwidth
 import Hub.Lemmas.Math
 /-
@@ -11,8 +12,6 @@ every run) over the hand-written model of `cosmossdk.io/math` (validated by the 
 namespace Hub.Props.C16
 open Hub.SDK Hub.Generated
 
-/-- The specification: the smallest whole number of base units not below `p·b/10^9`. -/
-def chargeSpec (p b : Nat) : Nat := (p * b + (10 ^ 9 - 1)) / 10 ^ 9
 
 /-- `chargeSpec` is that smallest number. -/
 theorem chargeSpec_is_ceiling (p b : Nat) :
@@ -122,8 +121,6 @@ theorem afb_split (p a b : Nat) :
   have : p * (a + b) = p * a + p * b := Nat.mul_add p a b
   constructor <;> omega
 
-/-- The specification of a proportional share: `a·s/10^18` rounded half to even. -/
-def shareSpec (a s : Nat) : Nat := Dec.chopRoundNat (a * s)
 
 /-- `GetProportionOfCoin` is the exactly rounded product; it never panics for amounts below
 2^255 and shares in [0, 1]. -/
@@ -155,8 +152,6 @@ theorem proportion_error (a s : Nat) :
     shareSpec a s * 10 ^ 18 ≤ a * s + 5 * 10 ^ 17 ∧ a * s ≤ shareSpec a s * 10 ^ 18 + 5 * 10 ^ 17 :=
   Dec.chopRoundNat_bounds (a * s)
 
-/-- Smallest multiple of `pre` not below `x`. -/
-def ceilToSpec (x pre : Nat) : Nat := (x + (pre - 1)) / pre * pre
 
 theorem ceilToSpec_is_smallest_multiple (x pre : Nat) (hp : 0 < pre) :
     pre ∣ ceilToSpec x pre ∧ x ≤ ceilToSpec x pre ∧ ∀ m, pre ∣ m → x ≤ m → ceilToSpec x pre ≤ m := by
